@@ -1,6 +1,9 @@
 import CollectionsC.Driver.Cmd
 import CollectionsC.Spec.LSeq
 import CollectionsC.Model.LinkedList
+import CollectionsC.Model.PList
+import Std.Data.HashMap
+import Std.Data.HashSet
 -- container: list
 namespace CC.Driver.DListD
 open CC CC.Driver
@@ -19,6 +22,11 @@ structure Sess where
   it  : DList.Iter := {}
   zit : DList.ZipIter := {}
   sit : LSeq.Cursor := {}
+  pst : PList.St := {}                              -- pointer-level model (Model/PList.lean), run alongside
+  phd : List (Option PList.Hdr) := [none, none, none, none]
+  disp : Std.HashMap Nat Nat := {}                  -- node id -> display id (first-seen order, as the shim numbers the C nodes)
+  dnext : Nat := 0
+  pbad : String := ""
   sparse : Bool := false     -- `obs=sparse` on a constructor line (CONVENTIONS, Addendum 2)
   obsNow : Bool := false     -- the current operation is `observe`
 
@@ -57,17 +65,34 @@ def phys1 (s : Sess) (k : Nat) (l : Chain) : String :=
      s!" itk{k}={s.itKind} itidx{k}={s.it.index} itlast{k}={fmtPtr n s.it.last} itnext{k}={fmtPtr n s.it.next}" else "") ++
   (if s.itKind == 3 && (s.itO == k || s.itO2 == k) then
      s!" zitidx{k}={s.zit.index} zitlast{k}={fmtPtr n (if s.itO == k then s.zit.last1 else s.zit.last2)} zitnext{k}={fmtPtr n (if s.itO == k then s.zit.next1 else s.zit.next2)}" else "")
-def phys (s : Sess) : String := joinLive s.model (phys1 s) "-"
+/-- ids along `next` from `p`, stopping at NULL or when the fuel is used up -/
+def pWalk (h : PList.Heap) : Nat → Option Nat → List Nat → List Nat
+  | 0, _, acc => acc.reverse
+  | _, none, acc => acc.reverse
+  | k + 1, some id, acc => pWalk h k (PList.nd h id).next (id :: acc)
+def fmtDisp (s : Sess) : Option Nat → String
+  | none => "-"
+  | some id => match s.disp.get? id with | some d => toString d | none => "?"
+/-- the raw link structure of slot `k`: every node on the `next` chain from `head` as `id:data:prev:next` -/
+def links1 (s : Sess) (k : Nat) : String :=
+  match s.phd.getD k none with
+  | none => s!" links{k}=? hd{k}=? tl{k}=?"
+  | some hd =>
+    let ids := pWalk s.pst.heap (hd.size + 4) hd.head []
+    let item (id : Nat) := let n := PList.nd s.pst.heap id; s!"{fmtDisp s (some id)}:{n.data}:{fmtDisp s n.prev}:{fmtDisp s n.next}"
+    s!" links{k}=[{",".intercalate (ids.map item)}] hd{k}={fmtDisp s hd.head} tl{k}={fmtDisp s hd.tail}"
+def phys (s : Sess) : String := joinLive s.model (fun k l => phys1 s k l ++ links1 s k) "-" ++ s.pbad
 
 def inv (s : Sess) : Bool := s.model.all fun o => match o with | none => true | some l => decide l.Inv
 
-/-- the two output lines for the state `s` after the operation -/
+/-- the spec line and the head of the model line for the state `s` after the operation; `step` appends
+` | phys | mem | flags` once the pointer-level model has been advanced as well -/
 def fin (s : Sess) (hdS hdM : String) : Sess × String × String :=
-  (s, s!"S {hdS} {obsS s}", s!"M {hdM} {obsM s} | {phys s} | {fmtMem s.mem} | {fmtFlags (inv s) s.mem}")
+  (s, s!"S {hdS} {obsS s}", s!"M {hdM} {obsM s}")
 def fin1 (s : Sess) (hd : String) : Sess × String × String := fin s hd hd
 /-- `st=- nosession`: obs carries no content -/
-def noSess (s : Sess) (ph : String) : Sess × String × String :=
-  (s, "S st=- nosession", s!"M st=- nosession | {ph} | {fmtMem s.mem} | {fmtFlags (inv s) s.mem}")
+def noSess (s : Sess) (_ph : String) : Sess × String × String :=
+  (s, "S st=- nosession", "M st=- nosession")
 
 def getM (s : Sess) (k : Nat) : Option Chain := (s.model.getD k none)
 def getS (s : Sess) (k : Nat) : Option (List Nat) := (s.spec.getD k none)
@@ -189,8 +214,8 @@ def iterStep (s : Sess) (c : Cmd) (m : Mem) : Sess × String × String :=
         | _ => fin1 s "st=- badop"
       | _, _ => fin1 s "st=- noiter"
 
-/-- returns the new session, the spec line and the model line -/
-def step (s : Sess) (c : Cmd) : Sess × String × String :=
+/-- the sequence-level models: new session, spec line, head of the model line -/
+def stepCore (s : Sess) (c : Cmd) : Sess × String × String :=
   let k := c.nat "o" 0
   let m := s.mem.begin c.sched
   let from_ := c.nat "from" 1
@@ -331,5 +356,111 @@ def step (s : Sess) (c : Cmd) : Sess × String × String :=
   | _, _ =>
     let s := { s with mem := m }
     noSess s (phys s)
+
+/-! ### the pointer-level model alongside -/
+
+def plUnsupported : List String :=
+  ["sort", "sort_in_place", "filter_mut", "mk_sub", "mk_copy_shallow", "mk_copy_deep", "mk_filter",
+   "it_add", "it_remove", "it_replace", "dit_add", "dit_remove", "dit_replace", "zit_add", "zit_remove", "zit_replace"]
+
+/-- rebuild the pointer-level state from the sequence-level one (fresh nodes, linked canonically): used after the
+operations that have no pointer-level model; the shim renumbers its nodes at the same moments -/
+def resync (s : Sess) : Sess :=
+  let build (acc : PList.St × List (Option PList.Hdr)) (o : Option Chain) : PList.St × List (Option PList.Hdr) :=
+    match o with
+    | none => (acc.1, acc.2 ++ [none])
+    | some l =>
+      let n := l.nodes.length
+      let base := acc.1.fresh
+      let heap0 := acc.1.heap
+      let tbl : Std.HashMap Nat PList.PNode := Std.HashMap.ofList ((List.range n).map fun i =>
+        (base + i, { data := l.nodes.getD i 0, next := if i + 1 < n then some (base + i + 1) else none,
+                     prev := if i = 0 then none else some (base + i - 1) }))
+      let heap : PList.Heap := fun j => match tbl.get? j with | some nd => some nd | none => heap0 j
+      ({ heap := heap, fresh := base + n },
+       acc.2 ++ [some { size := l.size, head := l.head.map (base + ·), tail := l.tail.map (base + ·), triple := l.triple }])
+  let r := s.model.foldl build ({ heap := fun _ => none, fresh := s.pst.fresh }, [])
+  { s with pst := r.1, phd := r.2, disp := {} }
+
+def setP (s : Sess) (k : Nat) (st : PList.St) (h : Option PList.Hdr) : Sess := { s with pst := st, phd := s.phd.set k h }
+def chk (s : Sess) (m : Mem) : Sess := if fmtMem m == fmtMem s.mem then s else { s with pbad := " PMEM=differs" }
+
+/-- advance the pointer-level model: `old` is the session before the operation, `s` after it -/
+def plStep (old s : Sess) (c : Cmd) : Sess :=
+  let k := c.nat "o" 0
+  let m := old.mem.begin c.sched
+  let from_ := c.nat "from" 1
+  let to := c.nat "to" 1
+  let v := c.arg 0
+  let idx := c.nat "idx" 0
+  if k ≥ NSLOT || from_ ≥ NSLOT || to ≥ NSLOT then s else
+  if plUnsupported.contains c.op then resync s else
+  if c.op == "new" || c.op == "new_default" then
+    if (getM old k).isSome then s else
+    let r := PList.new (if c.op == "new_default" then .libc else .conf) m
+    chk (setP s k s.pst r.2.1) r.2.2
+  else if c.op == "destroy" || c.op == "destroy_cb" then
+    let r := (List.range NSLOT).foldl (fun (acc : PList.St × Mem) j =>
+      match old.phd.getD j none with
+      | none => acc
+      | some h => let d := PList.destroy acc.1 h acc.2; (d.2.1, d.2.2)) (s.pst, m)
+    chk { s with pst := r.1, phd := [none, none, none, none] } r.2
+  else
+  match old.phd.getD k none, getM old k with
+  | some h, some _ =>
+    match c.op with
+    | "drop" | "drop_cb" => let d := PList.destroy s.pst h m; chk (setP s k d.2.1 none) d.2.2
+    | "add" | "add_last" | "add_first" | "add_at" =>
+      let r := if c.op == "add_first" then PList.addFirst s.pst h v m else if c.op == "add_at" then PList.addAt s.pst h v idx m
+               else PList.addLast s.pst h v m
+      chk (setP s k r.2.1 (some r.2.2.1)) r.2.2.2
+    | "add_all" | "add_all_at" | "splice" | "splice_at" =>
+      match old.phd.getD from_ none with
+      | some h2 =>
+        if from_ == k then s else
+        if c.op == "add_all" || c.op == "add_all_at" then
+          let r := if c.op == "add_all" then PList.addAll s.pst h h2 m else PList.addAllAt s.pst h h2 idx m
+          chk (setP s k r.2.1 (some r.2.2.1)) r.2.2.2
+        else
+          let r := if c.op == "splice" then PList.splice s.pst h h2 m else PList.spliceAt s.pst h h2 idx m
+          chk (setP (setP s k r.2.1 (some r.2.2.1)) from_ r.2.1 (some r.2.2.2.1)) r.2.2.2.2
+      | none => s
+    | "remove" | "remove_at" | "remove_first" | "remove_last" =>
+      let r := if c.op == "remove" then PList.remove s.pst h v m else if c.op == "remove_at" then PList.removeAt s.pst h idx m
+               else if c.op == "remove_first" then PList.removeFirst s.pst h m else PList.removeLast s.pst h m
+      chk (setP s k r.2.2.1 (some r.2.2.2.1)) r.2.2.2.2
+    | "remove_all" | "remove_all_cb" =>
+      let r := PList.removeAll s.pst h m
+      chk (setP s k r.2.2.1 (some r.2.2.2.1)) r.2.2.2.2
+    | "replace_at" =>
+      let r := PList.replaceAt s.pst h v idx m
+      chk (setP s k r.2.2.1 (some r.2.2.2.1)) r.2.2.2.2
+    | "reverse" => let r := PList.reverse s.pst h; setP s k r.1 (some r.2)
+    | _ => s
+  | _, _ => s
+
+/-- number the nodes the way the shim does: walk every live slot in ascending order along `next` from `head`;
+a node seen in the previous walk keeps its display id, a new one gets the next number; also drop the closure
+chain of the heap (only reachable nodes are kept) -/
+def relabel (s : Sess) : Sess :=
+  let walk (acc : List Nat × Std.HashSet Nat) (o : Option PList.Hdr) : List Nat × Std.HashSet Nat :=
+    match o with
+    | none => acc
+    | some h => (pWalk s.pst.heap (h.size + 4) h.head []).foldl (fun (a : List Nat × Std.HashSet Nat × Bool) id =>
+        if a.2.2 || a.2.1.contains id then (a.1, a.2.1, true) else (id :: a.1, a.2.1.insert id, false)) (acc.1, acc.2, false)
+        |> fun a => (a.1, a.2.1)
+  let ids := (s.phd.foldl walk ([], {})).1.reverse
+  let r := ids.foldl (fun (acc : Std.HashMap Nat Nat × Nat) id =>
+    match s.disp.get? id with
+    | some d => (acc.1.insert id d, acc.2)
+    | none => (acc.1.insert id acc.2, acc.2 + 1)) (({} : Std.HashMap Nat Nat), s.dnext)
+  let tbl : Std.HashMap Nat PList.PNode := Std.HashMap.ofList (ids.filterMap fun id => (s.pst.heap id).map (id, ·))
+  { s with disp := r.1, dnext := r.2, pst := { s.pst with heap := fun j => tbl.get? j } }
+
+/-- returns the new session, the spec line and the model line -/
+def step (s : Sess) (c : Cmd) : Sess × String × String :=
+  let r := stepCore s c
+  let s' := relabel (plStep s r.1 c)
+  (s', r.2.1, r.2.2 ++ s!" | {phys s'} | {fmtMem s'.mem} | {fmtFlags (inv s') s'.mem}")
 
 end CC.Driver.DListD
